@@ -390,6 +390,15 @@ theorem sEqv_atom_right (classes : Classes) (r : Lit) (a : Atom) (h : sEqv class
 
 /-! ### names -/
 
+theorem isAutoForm_isAutoLike (c n : String) (h : isAutoForm c n = true) : isAutoLike c n = true := by
+  unfold isAutoForm at h
+  unfold isAutoLike
+  split at h
+  · simp only [Bool.and_eq_true, decide_eq_true_eq] at h
+    simp only [Bool.and_eq_true, decide_eq_true_eq]
+    exact ⟨by omega, h.2⟩
+  · simp at h
+
 theorem isAutoName_isAutoLike (c n : String) (h : isAutoName c n = true) : isAutoLike c n = true := by
   unfold isAutoName at h
   unfold isAutoLike
@@ -920,10 +929,14 @@ theorem obj_roundtrip (classes : Classes) (ev : List String → Option Atom) (q 
         unfold nameSuppressed at hsup
         simp only [Bool.and_eq_true, beq_iff_eq, hv] at hsup
         obtain ⟨hnm, hrest⟩ := hsup
-        obtain ⟨a, rfl, _, _⟩ := hname p v hpv hnm
+        obtain ⟨a, rfl, _, hor⟩ := hname p v hpv hnm
         simp only [Bool.and_eq_true, beq_iff_eq] at hrest
+        have hform : isAutoForm cls.name a.text = true := by
+          rcases hor with h | h
+          · exact h
+          · rw [hrest.2] at h; simp at h
         simp only [hL_un hp1 (hunbound_of_skip hsk), hkwn]
-        simp only [hnm, beq_self_eq_true, if_true, nameEqv, hrest.1, hrest.2, Bool.and_self, Bool.true_or]
+        simp only [hnm, beq_self_eq_true, if_true, nameEqv, hrest.1, hform, Bool.and_self, Bool.true_or]
       · have hsup' : nameSuppressed cls.name ((cls.params.map (·.name)).zip vals) p.name = false := by
           simpa using hsup
         by_cases hord : p.name ∈ ordering cls.params (changedNames cls.name cls.params vals)
@@ -951,8 +964,8 @@ theorem obj_roundtrip (classes : Classes) (ev : List String → Option Atom) (q 
               simp only [hnm, beq_self_eq_true, Bool.true_and] at hsup'
               rw [← hnm, hv] at hsup'
               simpa [hstr] using hsup'
-            rcases hor with h | h
-            · rw [hnl] at h; simp at h
+            rcases hor with h | ⟨_, h⟩
+            · rw [isAutoForm_isAutoLike _ _ h] at hnl; simp at hnl
             · apply hnotch
               apply changedNames_mem _ _ _ p _ hpv _ h
               unfold autoNamed
